@@ -109,8 +109,17 @@ def write_puml(d, name, comps, rel, rng):
         lines = [rng.choice(["", "  ", "\t"]) + l.replace(" ", rng.choice([" ", "  ", "\t"])) + rng.choice(["", " ", "\t"]) for l in lines]
         eol = rng.choice(["\n", "\r\n"])
     p = Path(d) / name
+    before = after = ""
+    if rng.random() < 0.25 and len(comps) >= 2:
+        # text outside the tags is ignored - also when it looks like a declaration or an arrow between this diagram's own components
+        a0, b0 = rng.sample(list(comps), 2)
+        outside = [f"[{b0}] --> [{a0}]", f"[{a0}] <-- [{b0}]", "[zz_outside] --> [" + a0 + "]", "[zz_outside]", "Legend: " + a0 + " -> " + b0]
+        before = eol.join(rng.sample(outside, rng.randint(0, 2)))
+        after = eol.join(rng.sample(outside, rng.randint(1, 2)))
+        before = before + eol if before else ""
+        after = after + eol
     with open(p, "w", encoding="utf-8", newline="") as fh:
-        fh.write("@startuml" + eol + eol.join(lines) + eol + "@enduml" + eol)
+        fh.write(before + "@startuml" + eol + eol.join(lines) + eol + "@enduml" + eol + after)
     return p
 
 
